@@ -110,6 +110,17 @@ chk("C16", "model_checking",
     "aliases accepted by the reader (e.g. 'true' for an iarf option, 0/1/2) are valid values, not bad lines; blank-line count options are recognised by their documentation text",
     "exhaustive option x bad-line-class enumeration with differential (line absent) oracle under sanitizers", "3/C16")
 
+chk("C15", "model_checking",
+    "Registry-exhaustive round-trip exploration on the real binary: every option (857) x every value of its alphabet (every enumerator, "
+    "numeric min/interior/max; 16 special strings with blanks, quotes, backslashes, '#', '=', regex metacharacters for string options), "
+    "cfg0 -> --update-config -> cfg1 -> --update-config -> cfg2 (also --update-config-with-doc): cfg1 loads without diagnostic, cfg2 == cfg1, "
+    "every saved value is the one requested, formatting under cfg0 and cfg1 is byte-identical; all spellings of a setting (n=v, n v, "
+    "n,v, upper case, every alias, quoted, CRLF, --set, references plain/negated/inverted) give the same dump; directives: type, set x every "
+    "token name, macro-open/else/close, file_ext x every language, using; every etc/*.cfg and tests/config/**/*.cfg as a fixed universe; "
+    "string x directive pairs and neighbouring option pairs (thorough).",
+    "the --update-config dump and formatting are the observations of the loaded state; alias table taken from the reader's enum conversion",
+    "exhaustive option x value x spelling enumeration with double round-trip and differential formatting oracle", "3/C15")
+
 
 def main():
     commits = subprocess.run(["git", "-C", "/repo", "log", "--format=%h %s"], stdout=subprocess.PIPE, text=True).stdout.splitlines()
